@@ -516,6 +516,9 @@ pub fn check(ctx: &mut Ctx, spec: &RunSpec, ex: &Execution) -> (Vec<Violation>, 
                 probes.push("worksheets_lost_entries_under_fault".into());
                 worksheets_subset(m, rec.header, &rec.worksheets)
             }
+            // through auto-detection an error is an error: which variant or text the wrapper
+            // reports is not a "result" the property compares (the model is the own reader)
+            (_, Outcome::Err(_), Outcome::Err(_)) if spec.entry == Entry::Auto => true,
             _ => rec.outcome.same(&want),
         };
         if same {
